@@ -75,6 +75,11 @@ func main() {
 		Scan: true,
 		Mutate: func(r *vh.Rng, ops []wl.Op) []wl.Op {
 			ins := []wl.Op{{Kind: "next", N: 2}, {Kind: "unlock", PC: "cur"}, {Kind: "export", PC: "cur", K: r.Intn(3)}, {Kind: "chpriv", PC: "cur", NPC: "fresh"}}
+			if r.Bool() {
+				// several keystores re-keyed while the wallet is locked, then an export -> delete -> import -> export chain
+				ins = append(ins, wl.Op{Kind: "create", PC: "cur", SeedKind: "fresh", Remark: "second"}, wl.Op{Kind: "lock"}, wl.Op{Kind: "chpriv", PC: "cur", NPC: "fresh"},
+					wl.Op{Kind: "export", PC: "cur", K: 0}, wl.Op{Kind: "delete", PC: "cur", K: 0}, wl.Op{Kind: "import", PC: "exp", X: 99}, wl.Op{Kind: "export", PC: "cur", K: 5})
+			}
 			pos := 1 + r.Intn(len(ops)/2+1)
 			out := append([]wl.Op{}, ops[:pos]...)
 			out = append(out, ins...)
